@@ -173,7 +173,7 @@ var fnSpecs = []groupSpec{
 		},
 		Skip: []string{"minTTL := dnsutils.GetMinimalTTL(r)", "now := time.Now()", "backend.Store(key(msgKey), v, now.Add(cacheTtl))",
 			"v := &item{ resp: copyNoOpt(r), storedTime: now, expirationTime: now.Add(msgTtl), }"},
-		Doc:  "; the decision part of saveRespToCache: none = not stored, some (message lifetime, cache-entry lifetime) in ns; minTTL = dnsutils.GetMinimalTTL(r)",
+		Doc: "; the decision part of saveRespToCache: none = not stored, some (message lifetime, cache-entry lifetime) in ns; minTTL = dnsutils.GetMinimalTTL(r)",
 	}},
 	// ---------------------------------------------------------------- C03: the UDP size the reply is truncated to
 	{Group: "Handler", fnSpec: fnSpec{
@@ -185,5 +185,66 @@ var fnSpecs = []groupSpec{
 			"dns.MinMsgSize": constLx(big.NewInt(512)),
 		},
 		Doc: "; dns.MinMsgSize = 512 (checked by the correspondence); `opt` = the client's OPT record, if any",
+	}},
+	// ---------------------------------------------------------------- C12: the label scanner
+	{Group: "Domain", fnSpec: fnSpec{
+		File: "pkg/matcher/domain/utils.go", Func: "TrimDot",
+		Lean: "trimDot", Params: "(s : Bytes)", Ret: "Bytes",
+		Vars: map[string]ty{"s": tBytes},
+	}},
+	{Group: "Domain", fnSpec: fnSpec{
+		File: "pkg/matcher/domain/utils.go", Func: "Scan", Recv: "ReverseDomainScanner",
+		Lean: "scannerScan", Params: "(str : Bytes) (p t : Int)", Ret: "Bool × Int × Int",
+		Vars:  map[string]ty{"p": tInt, "t": tInt},
+		Expr:  map[string]lx{"s.p": i("p"), "s.t": i("t"), "s.s": by("str")},
+		Alias: map[string]string{"s.p": "p", "s.t": "t"},
+		Stmt: map[string]string{
+			"return false": "return (false, p, t)",
+			"return true":  "return (true, p, t)",
+		},
+		Doc: "; the scanner's fields are parameters and results: (more labels, p, t)",
+	}},
+	{Group: "Domain", fnSpec: fnSpec{
+		File: "pkg/matcher/domain/utils.go", Func: "NextLabel", Recv: "ReverseDomainScanner",
+		Lean: "scannerNextLabel", Params: "(str : Bytes) (p t : Int)", Ret: "Bytes",
+		Expr: map[string]lx{"s.p": i("p"), "s.t": i("t"), "s.s": by("str")},
+	}},
+	// ---------------------------------------------------------------- C05: what the TTL helpers do to one record
+	{Group: "Ttl", fnSpec: fnSpec{
+		File: "pkg/dnsutils/msg.go", Func: "GetMinimalTTL", LoopBody: true, Result: "(hasRecord, minTTL)",
+		Lean: "getMinimalTTLStep", Params: "(rrtype : UInt16) (rttl : UInt32) (hasRecord : Bool) (minTTL : UInt32)", Ret: "Bool × UInt32",
+		Vars: map[string]ty{"hasRecord": tBool, "minTTL": tU32},
+		Expr: map[string]lx{"hdr.Rrtype": u16("rrtype"), "dns.TypeOPT": constLx(big.NewInt(41)), "hdr.Ttl": lx{s: "rttl", t: tU32}},
+		Skip: []string{"hdr := rr.Header()"},
+		Doc:  "; the body of the innermost loop: one record (type, ttl) and the loop-carried (hasRecord, minTTL)",
+	}},
+	{Group: "Ttl", fnSpec: fnSpec{
+		File: "pkg/dnsutils/msg.go", Func: "SubtractTTL", LoopBody: true, Result: "(rttl, overflowed)",
+		Lean: "subtractTTLStep", Params: "(rrtype : UInt16) (rttl : UInt32) (delta : UInt32) (overflowed : Bool)", Ret: "UInt32 × Bool",
+		Vars:  map[string]ty{"rttl": tU32, "delta": tU32, "overflowed": tBool},
+		Expr:  map[string]lx{"hdr.Rrtype": u16("rrtype"), "dns.TypeOPT": constLx(big.NewInt(41)), "hdr.Ttl": lx{s: "rttl", t: tU32}},
+		Alias: map[string]string{"hdr.Ttl": "rttl"},
+		Skip:  []string{"hdr := rr.Header()"},
+		Doc:   "; the body of the innermost loop: result = (the record's new ttl, overflowed)",
+	}},
+	{Group: "Ttl", fnSpec: fnSpec{
+		File: "pkg/dnsutils/msg.go", Func: "SetTTL", LoopBody: true, Result: "rttl",
+		Lean: "setTTLStep", Params: "(rrtype : UInt16) (rttl : UInt32) (ttl : UInt32)", Ret: "UInt32",
+		Vars:  map[string]ty{"rttl": tU32, "ttl": tU32},
+		Expr:  map[string]lx{"hdr.Rrtype": u16("rrtype"), "dns.TypeOPT": constLx(big.NewInt(41)), "hdr.Ttl": lx{s: "rttl", t: tU32}},
+		Alias: map[string]string{"hdr.Ttl": "rttl"},
+		Skip:  []string{"hdr := rr.Header()"},
+		Doc:   "; the body of the innermost loop: result = the record's new ttl",
+	}},
+	// ---------------------------------------------------------------- C01: one try of the wire-id search
+	{Group: "Conn", fnSpec: fnSpec{
+		File: "pkg/upstream/transport/conn_traditional.go", Func: "addQueueC", Recv: "TraditionalDnsConn", LoopBody: true, Result: "(false, qid, nextQid)",
+		Lean: "addQueueTry", Params: "(qid nextQid : UInt16) (dup : Bool)", Ret: "Bool × UInt16 × UInt16",
+		Vars:  map[string]ty{"qid": tU16, "nextQid": tU16, "dup": tBool},
+		Expr:  map[string]lx{"dc.nextQid": u16("nextQid")},
+		Alias: map[string]string{"dc.nextQid": "nextQid"},
+		Stmt:  map[string]string{"return qid, c": "return (true, qid, nextQid)"},
+		Skip:  []string{"_, dup := dc.queue[uint32(qid)]", "dc.queue[uint32(qid)] = c", "dc.queueMu.Unlock()"},
+		Doc:   "; the body of the search loop: `dup` = the id just taken is still in the waiter table; result = (found, the id, the counter)",
 	}},
 }
